@@ -162,6 +162,68 @@ class SxBytesIO:
         return size
 
 
+class SxBufferedReader:
+    """pure-Python stand-in for io.BufferedReader (usable as a base class): delegates to raw."""
+
+    def __init__(self, raw, buffer_size=8192):
+        self.raw = raw
+
+    @property
+    def closed(self):
+        return getattr(self.raw, 'closed', False)
+
+    def readable(self):
+        return True
+
+    def seekable(self):
+        return True
+
+    def tell(self):
+        return self.raw.tell()
+
+    def seek(self, pos, whence=0):
+        return self.raw.seek(pos, whence)
+
+    def read(self, n=-1):
+        if n is None:
+            n = -1
+        return self.raw.read(n)
+
+    def read1(self, n=-1):
+        return self.raw.read(n)
+
+    def peek(self, n=0):
+        if hasattr(self.raw, 'peek'):
+            return self.raw.peek(n)
+        p = self.raw.tell()
+        r = self.raw.read(n if n and n > 0 else 8192)
+        self.raw.seek(p)
+        return r
+
+    def close(self):
+        if hasattr(self.raw, 'close'):
+            self.raw.close()
+
+    def __enter__(self):
+        return self
+
+    def __exit__(self, *a):
+        self.close()
+        return False
+
+    def detach(self):
+        return self.raw
+
+
+class _BufferedReaderMeta(type):
+    def __instancecheck__(cls, obj):
+        return isinstance(obj, _io.BufferedReader) or type.__instancecheck__(cls, obj)
+
+
+class BufferedReader(SxBufferedReader, metaclass=_BufferedReaderMeta):
+    pass
+
+
 class _BytesIOMeta(type):
     def __instancecheck__(cls, obj):
         return isinstance(obj, (_io.BytesIO, SxBytesIO))
@@ -172,4 +234,4 @@ class BytesIO(metaclass=_BytesIOMeta):
         return SxBytesIO(initial)
 
 
-io_env = EnvModule(_io, 'io', BytesIO=BytesIO)
+io_env = EnvModule(_io, 'io', BytesIO=BytesIO, BufferedReader=BufferedReader)
